@@ -1205,7 +1205,13 @@ class RenameFrame(Elemwise):
         if isinstance(parent, Projection) and isinstance(
             self.operand("columns"), Mapping
         ):
-            reverse_mapping = {val: key for key, val in self.operand("columns").items()}
+            # labels that are not columns of the frame are not renamed
+            frame_columns = set(self.frame.columns)
+            reverse_mapping = {
+                val: key
+                for key, val in self.operand("columns").items()
+                if key in frame_columns
+            }
 
             columns = determine_column_projection(self, parent, dependents)
             columns = _convert_to_list(columns)
